@@ -144,4 +144,48 @@ def expectedApplyWrites : WriteTable :=
    ("Rotation", []), ("Similarity", []), ("ThinPlateSplines", []), ("TransformChain", []), ("Translation", []),
    ("UniformScale", []), ("WithDims", [])]
 
+/-- subclasses of `Transform` that the write table need not cover: abstract bases without a usable `_apply` -/
+def expectedUncovered : List String := ["AbstractPWA", "ComposableTransform", "RadialBasisFunction"]
+
+/-- places other than instance attributes where state could survive between two `apply` calls
+(kind, module, name): mutable module globals, mutable class attributes, mutable default arguments, function
+attributes, memoising wrappers, closures over mutable cells — in menpo/transform/** and menpo/image/boolean.py.
+The model assumes there is none. -/
+abbrev HiddenState := List (String × String × String)
+def expectedHiddenState : HiddenState := []
+
+/-! ### the memo as the two attributes it is: `_applied_points` (key) and `_iab` (value), written one after the other -/
+
+structure St2 (Val Res : Type) where
+  heap : Nat → Val
+  key : Option Val
+  iab : Option Res
+
+/-- `CachedPWA.index_alpha_beta`.  `keyFirst = false` is the code: `_iab` is computed first ("This must happen
+first in case index_alpha_beta throws"), then the private copy of the points is stored.  `keyFirst = true` stores
+the key before computing, so a raising computation leaves the new key next to the old value. -/
+def step2 {Val Res Err} [DecidableEq Val] (keyFirst : Bool) (compute : Val → Except Err Res)
+    (s : St2 Val Res) : Op Val → St2 Val Res × Option (Except Err (Option Res))
+  | .write a v => ({ s with heap := update s.heap a v }, none)
+  | .apply a =>
+    if s.key = some (s.heap a) then (s, some (.ok s.iab))
+    else if keyFirst then
+      let s1 := { s with key := some (s.heap a) }
+      match compute (s.heap a) with
+      | .ok res => ({ s1 with iab := some res }, some (.ok (some res)))
+      | .error e => (s1, some (.error e))
+    else
+      match compute (s.heap a) with
+      | .ok res => ({ s with iab := some res, key := some (s.heap a) }, some (.ok (some res)))
+      | .error e => (s, some (.error e))
+
+def run2 {Val Res Err} [DecidableEq Val] (keyFirst : Bool) (compute : Val → Except Err Res) :
+    St2 Val Res → List (Op Val) → List (Val × Except Err (Option Res))
+  | _, [] => []
+  | s, op :: ops =>
+    let (s', out) := step2 keyFirst compute s op
+    match op, out with
+    | .apply a, some r => (s.heap a, r) :: run2 keyFirst compute s' ops
+    | _, _ => run2 keyFirst compute s' ops
+
 end MenpoModel.C09
